@@ -39,6 +39,12 @@ def make_exc(name: Optional[str], op: str = "Op") -> BaseException:
     return client_error(name, op)
 
 
+def _owner(body: bytes) -> str:
+    """Owner token named by a lock object's content: the writer's id, optionally followed by ':<renewal counter>'
+    (a renewal has to change the bytes for the ETag to change).  Oracles compare owners, not raw bytes."""
+    return body.decode("utf-8", "replace").split(":", 1)[0]
+
+
 class Obj:
     __slots__ = ("body", "etag", "mtime", "writer")
 
@@ -108,7 +114,7 @@ class FakeS3Client:
                 return key[len(p) + 1:]
         return "<key>" + key
 
-    def _call(self, op: str, key: str, do, opname: str):
+    def _call(self, op: str, key: str, do, opname: str, detail: Optional[dict] = None):
         sim = cur_sim()
         if sim is None or sim.me() is None:
             return do()
@@ -128,7 +134,7 @@ class FakeS3Client:
             if self.store.keep_history:
                 self.store.history.append((sim.gstep, a.name, op, rel, "ok"))
             return r
-        return sim.seam(op, cls, rel, do2, fail=lambda n: make_exc(n, opname))
+        return sim.seam(op, cls, rel, do2, fail=lambda n: make_exc(n, opname), detail=detail)
 
     # -- API
     def get_object(self, Bucket: str, Key: str, Range: Optional[str] = None, **kw):
@@ -151,7 +157,7 @@ class FakeS3Client:
             sim = cur_sim()
             if sim is not None and self.store.keep_history and Key.endswith(".lock"):
                 sim.extra.setdefault("lock_reads", []).append(
-                    (sim.gstep + 0, cur_actor().name if cur_actor() else "-", data.decode("utf-8", "replace")))
+                    (sim.gstep + 0, cur_actor().name if cur_actor() else "-", _owner(data)))
             return {"Body": Body(data), "ETag": o.etag, "LastModified": _stamp(o.mtime),
                     "ContentLength": len(data)}
         return self._call("get", Key, do, "GetObject")
@@ -165,7 +171,7 @@ class FakeS3Client:
             if sim is not None and self.store.keep_history and Key.endswith(".lock"):
                 a = cur_actor()
                 sim.extra.setdefault("lock_heads", []).append(
-                    (sim.gstep + 0, a.name if a else "-", sim.true_time(), o.mtime, o.body.decode("utf-8", "replace")))
+                    (sim.gstep + 0, a.name if a else "-", sim.true_time(), o.mtime, _owner(o.body)))
             return {"ETag": o.etag, "LastModified": _stamp(o.mtime), "ContentLength": len(o.body)}
         return self._call("head", Key, do, "HeadObject")
 
@@ -198,17 +204,18 @@ class FakeS3Client:
             b[Key] = o
             if sim is not None and self.store.keep_history and Key.endswith(".lock"):
                 sim.extra.setdefault("lock_writes", []).append(
-                    (sim.gstep + 0, a.name if a else "-", body.decode("utf-8", "replace"),
+                    (sim.gstep + 0, a.name if a else "-", _owner(body),
                      "create" if IfNoneMatch else ("cas" if IfMatch else "plain")))
                 sim.extra.setdefault("lock_writes2", []).append(
-                    {"g": sim.gstep + 0, "actor": a.name if a else "-", "body": body.decode("utf-8", "replace"),
+                    {"g": sim.gstep + 0, "actor": a.name if a else "-", "body": _owner(body), "raw": body.decode("utf-8", "replace"),
                      "mode": "create" if IfNoneMatch else ("cas" if IfMatch else "plain"),
-                     "prev": cur.body.decode("utf-8", "replace") if cur is not None else None,
+                     "prev": _owner(cur.body) if cur is not None else None,
                      "prev_mtime": cur.mtime if cur is not None else None, "t": sim.now, "tt": t})
-                if cur is not None and cur.body != body:
+                if cur is not None and _owner(cur.body) != _owner(body):
                     sim.probe("lock_takeover")
             return {"ETag": o.etag}
-        return self._call("put", Key, do, "PutObject")
+        return self._call("put", Key, do, "PutObject",
+                          {"if_match": IfMatch is not None, "if_none_match": IfNoneMatch is not None})
 
     def delete_object(self, Bucket: str, Key: str, **kw):
         def do():
@@ -217,7 +224,7 @@ class FakeS3Client:
             if sim is not None and self.store.keep_history and Key.endswith(".lock"):
                 a = cur_actor()
                 sim.extra.setdefault("lock_deletes", []).append(
-                    (sim.gstep + 0, a.name if a else "-", prev.body.decode("utf-8", "replace") if prev else None,
+                    (sim.gstep + 0, a.name if a else "-", _owner(prev.body) if prev else None,
                      sim.now))
             return {}
         return self._call("delete", Key, do, "DeleteObject")
